@@ -174,7 +174,7 @@ def parse_template(path):
             else:
                 if kw == "end":
                     out.append(("fn", cur)); cur = None; cur_dir = None
-                elif kw in ("props", "nocanary", "mutself", "macro"):
+                elif kw in ("props", "nocanary", "mutself", "macro", "block"):
                     cur.directives.append((kw, rest, [], i + 1))
                 else:
                     cur_dir = (kw, rest, [], i + 1)
@@ -376,6 +376,22 @@ def rewrite_for(src, toks, br, loop, spec_text, idx_name, log, kind_hint=None):
     if base is not None:
         head = f"let mut {n}: usize = 0;\n while {n} < {base}.len()\n{spec_text}\n {{\n let {pat} = &{base}[{n}]; {n} += 1;\n"
         return head, f"for {pat} in {expr} {{ => index loop over `{base}`"
+    # integer range `A..B`
+    et = rlex.lex(expr)
+    dd = [k for k, t in enumerate(et) if t.kind == "punct" and t.text == ".."]
+    depth_ok = []
+    if dd:
+        # only a top-level `..`
+        br2 = rlex.match_brackets(et)
+        inside = set()
+        for o, c in br2.items():
+            inside.update(range(o + 1, c))
+        depth_ok = [k for k in dd if k not in inside]
+    if len(depth_ok) == 1 and re.match(r"^[A-Za-z_][A-Za-z0-9_]*$", pat):
+        k = depth_ok[0]
+        A = expr[:et[k].start].strip(); B = expr[et[k].end:].strip()
+        head = f"let mut {n} = {A}; let {n}_end = {B};\n while {n} < {n}_end\n{spec_text}\n {{\n let {pat} = {n}; {n} += 1;\n"
+        return head, f"for {pat} in {expr} {{ => counting loop from `{A}` up to (excluding) `{B}`"
     if re.match(r"^[A-Za-z_][A-Za-z0-9_]*$", expr) and kind_hint and "ref" in kind_hint:
         # `for PAT in s` where `s` is a `&[T]` / `&Vec<T>`: yields `&T`
         head = f"let mut {n}: usize = 0;\n while {n} < {expr}.len()\n{spec_text}\n {{\n let {pat} = &{expr}[{n}]; {n} += 1;\n"
@@ -687,7 +703,7 @@ def main():
                         canary_fns.append(fs.fid())
                 elif canary and not is_trait_impl:
                     st = "\n".join(fs.sig)
-                    st2 = re.sub(r"\bfn\s+" + re.escape(fs.name) + r"\b", "fn " + fs.name + "__canary", st, count=1)
+                    st2 = re.sub(r"\bfn\s+([A-Za-z_][A-Za-z0-9_]*)", lambda mm: "fn " + mm.group(1) + "__canary", st, count=1)
                     dup_sig = falsify(st2).split("\n")
                     canary_fns.append(fs.fid())
                 elif canary and is_trait_impl:
